@@ -60,7 +60,7 @@ dc = common.import_repo()
 req = common.dec(json.load(sys.stdin))
 disk = getattr(dc, req['disk'])
 c = dc.Cache(req['path'], disk=disk)
-out = {'settings': {k: getattr(c, k) for k in dc.DEFAULT_SETTINGS}}
+out = {'settings': {k: getattr(c, k, '<attribute missing>') for k in list(dc.DEFAULT_SETTINGS) + req.get('extra_settings', [])}}
 op = req['op']
 if op[0] == 'set':
     out['result'] = c.set(op[1], req['value'])
@@ -93,11 +93,11 @@ class EventRunner(Runner):
     def check_settings(self, cache, how):
         import diskcache
 
-        for key in diskcache.DEFAULT_SETTINGS:
+        for key in list(diskcache.DEFAULT_SETTINGS) + [k for k in self.creation if k not in diskcache.DEFAULT_SETTINGS]:
             want = self.creation[key]
             if key == 'statistics':
                 want = int(self.m.statistics)
-            got = getattr(cache, key)
+            got = getattr(cache, key, '<attribute missing>')
             if got != want:
                 raise Violation(
                     'C18/settings-lost/%s' % key,
@@ -310,7 +310,7 @@ class EventRunner(Runner):
         from ..cacheops import is_filey, mkval
 
         self.trace.append(op)
-        req = {'path': self.path, 'disk': self.disk_name, 'op': list(op[:2]), 'value': mkval(op[2]) if op[0] == 'set' else None}
+        req = {'path': self.path, 'disk': self.disk_name, 'op': list(op[:2]), 'value': mkval(op[2]) if op[0] == 'set' else None, 'extra_settings': [k for k in self.creation if k.startswith('disk_compress')]}
         env = dict(os.environ, PYTHONDONTWRITEBYTECODE='1')
         p = subprocess.run([sys.executable, '-c', CHILD % {'verif': common.VERIF}], input=json.dumps(enc(req)), capture_output=True, text=True, env=env, timeout=120)
         if p.returncode != 0:
@@ -361,6 +361,8 @@ class Events(SubCheck):
         def case(draw):
             creation = {k: draw(st.sampled_from(v)) for k, v in SETTINGS.items()}
             disk = draw(st.sampled_from(['Disk', 'Disk', 'Disk', 'JSONDisk']))
+            if disk == 'JSONDisk':
+                creation['disk_compress_level'] = draw(st.sampled_from([1, 0, 6, 9]))  # a setting of the Disk subclass
             keys = ['a', 'b', 'c', 'k7'] if disk == 'JSONDisk' else c03.cacheops.KEYS
             base = op_strategy(creation['disk_min_file_size'], keys=keys, bulk=False)
             if disk == 'JSONDisk':
